@@ -16,7 +16,7 @@ import toml_text as T
 
 PROP = "C03"
 COQ_PROPS = "Props/C03.v"
-COQ_PROPS_EXTRA = ["Props/C03exact.v", "Props/C03more.v"]
+COQ_PROPS_EXTRA = ["Props/C03exact.v", "Props/C03more.v", "Props/WFbackbone.v"]
 THEOREMS = ["see Props/C03.v"]
 RULE = ("valid abstract documents with comments/whitespace markers in every decor slot, all table orderings, CRLF/LF "
         "mixes, BOM, missing final newline; non-trivial = document with >= 2 statements")
